@@ -474,7 +474,82 @@ let exec (op : string) : unit =
         let items = List.init d (fun i -> Printf.sprintf "%d:%d" (i + 1) (cum (i + 1))) in
         let total = List.fold_left (+) 0 (List.init d (fun i -> cum (i + 1))) in
         Printf.sprintf "clicount %d %s total:%d" d (String.concat " " items) total
-    | ("pvp" | "watch") :: _ when (match !next_obs with Some o -> o = "pvp unparsed" || o = "watch unparsed" | None -> false) -> "SKIP"
+    | ("pvp" | "watch" | "play") :: _ when (match !next_obs with Some o -> o = "pvp unparsed" || o = "watch unparsed" || o = "play unparsed" | None -> false) -> "SKIP"
+    | [ "play"; d; col; script ] ->
+        (* the human-vs-computer loop: the model follows the moves the loop printed.  On the human's turns
+           the typed lines are consumed one by one through the extracted input layer (Pvp.parse_input /
+           exec_command) until one is accepted: that move must be the one printed ("-" is printed for a
+           move entered by coordinates: the engine's display looks the move up with its annotation).
+           On the engine's turns the printed label must be the notation of a legal move (C15).  A line
+           the model accepts must have been played; the loop stops only on checkmate / stalemate. *)
+        let inputs = ref (String.split_on_char '|' script) in
+        let player = if col = "w" then White else Black in
+        let b0 = ref board_new in
+        String.iteri (fun i ch -> if ch <> '.' then let (p, c) = parse_pchar ch in
+                        match put tbl !b0 (n_of_int i) p c with Ok y -> b0 := y | _ -> ())
+          "RNBQKBNRPPPPPPPP................................pppppppprnbqkbnr";
+        let g = ref { gboard = !b0; ghist = []; gdepth = n_of_int (int_of_string d) } in
+        let impl = match !next_obs with Some o -> o | None -> "" in
+        (match List.filter (fun x -> x <> "") (String.split_on_char ' ' impl) with
+         | "play" :: iend :: moves ->
+             let ok = ref true in
+             let pass (g1 : game) = { g1 with gboard = toggle_turn g1.gboard } in
+             let over (gm : game) = match game_ending tbl rk bs gm.gboard gm.gboard.turn with
+               | Ok (Some Checkmate, _) -> Some "checkmate" | Ok (Some Stalemate, _) -> Some "stalemate" | _ -> None in
+             (* the human's next accepted line, if any *)
+             let rec human_move () = match !inputs with
+               | [] -> None
+               | l :: rest ->
+                   inputs := rest;
+                   (match parse_input (chars_of_string l) with
+                    | Some c -> (match exec_command tbl rk bs c !g with
+                                 | GOk (m, g1) -> Some (l, m, g1)
+                                 | _ -> human_move ())
+                    | None -> human_move ()) in
+             let done_ = ref [] in
+             List.iteri (fun k san ->
+                 if !ok then begin
+                   (match over !g with
+                    | Some r -> ok := false; spec_fail (Printf.sprintf "C15 play: the loop made move %d (%s) after `%s` in [%s]" (k + 1) san r (snap_of !g.gboard))
+                    | None -> ());
+                   if !ok then
+                   if !g.gboard.turn = player then
+                     (match human_move () with
+                      | None -> ok := false;
+                          spec_fail (Printf.sprintf "C14 play: move %d (%s) was made on the human's turn although no remaining typed line names a legal move in [%s]" (k + 1) san (snap_of !g.gboard))
+                      | Some (l, m, g1) ->
+                          (if san <> "-" then
+                             match apply_by_notation tbl rk bs !g (chars_of_string san) with
+                             | GOk (m', _) when mv_text m' = mv_text m -> ()
+                             | _ -> ok := false;
+                                 spec_fail (Printf.sprintf "C14 play: the typed line `%s` names %s but the loop shows move %d as `%s` in [%s]" l (mv_text m) (k + 1) san (snap_of !g.gboard)));
+                          if !ok then (g := pass g1; done_ := san :: !done_))
+                   else
+                     (match apply_by_notation tbl rk bs !g (chars_of_string san) with
+                      | GOk (_, g1) -> g := pass g1; done_ := san :: !done_
+                      | _ -> ok := false;
+                          spec_fail (Printf.sprintf "C15 play: the engine's move %d was printed as `%s`, which is not the notation of a legal move in [%s]" (k + 1) san (snap_of !g.gboard)))
+                 end) moves;
+             let mend = if not !ok then "invalid" else
+                 match over !g with
+                 | Some r -> r
+                 | None ->
+                     (* nothing more was played: on the human's turn no remaining line may be acceptable *)
+                     if !g.gboard.turn = player then
+                       (match human_move () with
+                        | Some (l, m, _) ->
+                            spec_fail (Printf.sprintf "C14 play: the typed line `%s` names the legal move %s in [%s] but the loop did not play it" l (mv_text m) (snap_of !g.gboard));
+                            "invalid"
+                        | None -> "runaway")
+                     else
+                       (* the engine's turn with the game not over: it should have moved (unless the rules give no move) *)
+                       (match gen_moves tbl rk bs !g.gboard !g.gboard.turn with
+                        | Ok ([], _) -> "runaway"
+                        | _ -> spec_fail (Printf.sprintf "C15 play: the loop stopped showing moves on the engine's turn in [%s]" (snap_of !g.gboard)); "invalid") in
+             if !ok && mend <> "invalid" && mend <> iend && not (mend = "runaway" && iend = "eof") then
+               spec_fail (Printf.sprintf "C15 play: the loop ended with `%s` after %d moves where the model says `%s` in [%s]" iend (List.length moves) mend (snap_of !g.gboard));
+             Printf.sprintf "play %s %s" (if mend = "runaway" && iend = "eof" then "eof" else mend) (String.concat " " (List.rev !done_))
+         | _ -> "play ?")
     | [ "pvp"; script ] ->
         (* the player-vs-player loop: board printed, game-over test, one input read, classified by the
            translated patterns (coordinates first), executed; the turn is toggled after an accepted move *)
